@@ -263,7 +263,8 @@ def run(ctx, res):
                             kname = payload["r"].get("vname")
                 elif a1["k"] == "const" and "vname" in a1["v"]:
                     kname = a1["v"]["vname"]
-                okk = len(cnt) == 1 and kname is not None and (kname == "N" or cnt[0] * isamod.MAX_COST_MULT <= 255)
+                all_const = bool(croots) and all(r[0] == "const" and str(r[1]).isdigit() for r in croots)
+                okk = all_const and len(cnt) >= 1 and kname is not None and (kname == "N" or max(cnt) * isamod.MAX_COST_MULT <= 255)
                 res.ob(okk)
                 if not okk:
                     res.finding("cost-context|%s|line%s" % (k.split("::")[-1], t["ln"]), "%s passes (kind %s, count %r) to the cost function: the count is not a constant whose charge fits 8 bits" % (k, kname, cnt))
